@@ -1393,6 +1393,24 @@ def check_reuse(cfg, tier="quick"):
             t2 = jv(v2)[1]
             t3 = jv(v1)[1]
             res.update(t1_terms=t1_terms, t1_after=coeffs(t1), t3=t3)
+            # re-entrancy: the SAME JVP function is called again (other tangent) while a call of it is still tracing,
+            # between two uses of the input; the outer call must still return its own answer: f_re = f + 2 f = 3 f
+            st = {"jv": None, "busy": False}
+
+            def f_re(x):
+                a = f(x)
+                if st["jv"] is not None and not st["busy"]:
+                    st["busy"] = True
+                    try:
+                        st["jv"](v2)
+                    finally:
+                        st["busy"] = False
+                return a + f(x) * 2.0
+
+            if not isinstance(yv, (tuple, list, dict)):
+                jv_re = core.make_jvp(f_re, plain[k])
+                st["jv"] = jv_re
+                res["t_re"] = jv_re(v1)[1]
         except (Unsupported, Infeasible, PathLimit):
             raise
         except ValueError as e:
@@ -1432,6 +1450,10 @@ def check_reuse(cfg, tier="quick"):
         eqs = list(zip(coeffs(res["r3"]), res["r1_terms"])) + list(zip(res["r1_after"], res["r1_terms"]))
         if "t3" in res:
             eqs += list(zip(coeffs(res["t3"]), res["t1_terms"])) + list(zip(res["t1_after"], res["t1_terms"]))
+        if "t_re" in res and len(coeffs(res["t_re"])) == len(res["t1_terms"]):
+            from .sym import t_mul as _tm
+
+            eqs += [(a_, _tm(Fr(3), b_)) for a_, b_ in zip(coeffs(res["t_re"]), res["t1_terms"])]
         v, model = prove_eqs(p, eqs, [], out, opts)
         if v == "unknown":
             out.status, out.detail = "inconclusive", "solver unknown on reuse equality"
@@ -1876,6 +1898,18 @@ def check_operators(case, tier="quick"):
         if scalar_in or ish == ():
             attempt("argnum=1: deriv", lambda: autograd.deriv(F2b, 1)(a0, x), m * J)
         attempt("argnum=1: forward-over-reverse", lambda: autograd.make_jvp(autograd.grad(sc2, 1), 1)(a0, x)(v)[1], m * T(Hs, v, nin))
+        # one primitive call with THREE traced arguments (the general dispatch branch of defvjp): every operator still
+        # pairs each argument with its own rule
+        @primitive
+        def fma(p_, q_, r_):
+            return p_ * q_ + r_
+
+        defvjp(fma, lambda ans, p_, q_, r_: lambda g_: g_ * q_, lambda ans, p_, q_, r_: lambda g_: g_ * p_, lambda ans, p_, q_, r_: lambda g_: g_)
+        defjvp(fma, lambda t_, ans, p_, q_, r_: t_ * q_, lambda t_, ans, p_, q_, r_: t_ * p_, lambda t_, ans, p_, q_, r_: t_)
+        attempt("3 traced args: elementwise_grad", lambda: autograd.elementwise_grad(lambda x_: fma(x_, x_ * 2.0, x_ * 3.0))(x), 4.0 * x + 3.0)
+        attempt("3 traced args: grad with tuple argnum, middle slot", lambda: autograd.grad(lambda a, b, c: anp.sum(fma(a, b, c) * v), (0, 1, 2))(x, x * 2.0, x * 3.0)[1], v * x)
+        attempt("3 traced args: grad with tuple argnum, first slot", lambda: autograd.grad(lambda a, b, c: anp.sum(fma(a, b, c) * v), (0, 1, 2))(x, x * 2.0, x * 3.0)[0], v * x * 2.0)
+        attempt("3 traced args: forward == reverse", lambda: autograd.make_jvp(lambda x_: fma(x_, x_ * 2.0, x_ * 3.0))(x)(v)[1], v * (4.0 * x + 3.0))
         # negative argnum counts from the end of the positional arguments actually passed (Python indexing), on a function
         # that has further defaulted parameters which must keep their defaults
         attempt("argnum=-1: grad", lambda: autograd.grad(sc2, -1)(a0, x), m * gJ)
@@ -2262,6 +2296,62 @@ def _second_probe(cfg):
     if seen == 3 and any(c == 3 for c in off.values()):
         return last
     return None
+
+
+class _ImagZero(_Default):
+    """random float environment in which the imaginary parts of the ARGUMENT's entries are exactly 0.0 (a complex-typed
+    but real-valued point), everything else (cotangents, directions) generic"""
+
+    def __missing__(self, k):
+        import re as _re
+
+        if _re.match(r"^x\d+(_\d+)*i$", k):
+            self[k] = 0.0
+            return 0.0
+        return super().__missing__(k)
+
+
+def check_second_at_real_valued_points(cfg, tier="quick"):
+    """float64 probe: the four second-order mode sequences at complex-typed points whose imaginary parts are exactly zero
+    (value-dependent real/complex shortcuts inside rules take a different branch there), against the second finite
+    difference of NumPy's own function; three points"""
+    out = Outcome(cfg)
+    t0 = time.time()
+    rng = random.Random(SEED + 31)
+    names = {"ff": "jvp-of-jvp", "rf": "vjp-of-jvp", "fr": "jvp-of-vjp", "rr": "vjp-of-vjp"}
+    off = {k_: 0 for k_ in names}
+    seen = 0
+    last = None
+    for _ in range(8):
+        env = _ImagZero({}, rng)
+        try:
+            r = _second_floats(cfg, env)
+        except Exception as e:
+            out.detail = exc_sig(e)
+            continue
+        if not r["smooth"]:
+            continue
+        seen += 1
+        for k_ in names:
+            v = r.get(k_)
+            if v is not None and abs(v - r["ref"]) > 1e-3 * max(1.0, abs(v), abs(r["ref"])):
+                off[k_] += 1
+                last = "%s gives %.9g, second finite difference of NumPy's function gives %.9g (imaginary parts of the argument exactly 0)" % (names[k_], v, r["ref"])
+        if seen == 3:
+            break
+    out.paths = seen
+    if seen < 3:
+        out.status, out.detail = "inconclusive", "fewer than 3 regular points (%s)" % out.detail
+    elif any(c == 3 for c in off.values()):
+        out.status, out.detail = "violation", "[float64 probe] " + last
+        out.cex = {"env": {}, "mode": "second0"}
+        out.extra["decided_by"] = "float64 probe"
+    else:
+        out.status = "holds"
+        out.validated = 3
+        out.extra["decided_by"] = "float64 probe"
+    out.time = time.time() - t0
+    return out
 
 
 def _validate_second(cfg):
